@@ -138,6 +138,17 @@ def sParsedResp : Except RErr (UInt64 × Bytes × ResExtra × Outcome) → Strin
   | .error e => sRErr e
   | .ok (q, b, ex, o) => s!"ok {sU64 q} {hexOfBytes b} {sOutcome o} {sResExtra ex}"
 
+def sHctxNoQid (h : Hctx) : String :=
+  let to := match h.customTimeout with | some t => sU32 t | none => "d"
+  s!"{sU64 h.actorId} {sBool h.tl2} {sU32 h.reqTag} {sBool h.noResult} {sU32 h.fieldsMask} {to} {hexOfBytes h.request} {sReqExtra h.extra}"
+
+def sCall : CallResult → String
+  | .refused => "refused"
+  | .serverRejects e => "srv-" ++ sRErr e
+  | .noAnswer => "no-answer"
+  | .clientRejects hc e => s!"ok {sHctxNoQid hc} | {sRErr e}"
+  | .done hc b ex o => s!"ok {sHctxNoQid hc} | {hexOfBytes b} {sOutcome o} {sResExtra ex}"
+
 def errPrefix (s : String) : String :=
   if s == "eof" || s == "rej" then "err " ++ s else s
 
@@ -167,6 +178,16 @@ def handle (op : String) (args : List String) : String :=
     match pBool t, bytesOfHex w with
     | some t, some w => errPrefix (sParsedResp (parseResponse t w))
     | _, _ => "bad-op"
+  | "e2e", a :: t :: b :: rest =>
+    match pU64 a, pBool t, bytesOfHex b, pReqExtra (rest.take 14), rest.drop 14 with
+    | some a, some t, some b, some ex, er :: rb :: rex =>
+      match pErr er, bytesOfHex rb, pResExtra rex with
+      | some er, some rb, some rex =>
+        -- the client picks the query id; it is not observable in the result
+        sCall (call { body := b, actorId := a, extra := ex, tl2 := t, queryId := 1 }
+                 (fun _ => { response := rb, extra := rex, err := er }))
+      | _, _, _ => "bad-op"
+    | _, _, _, _, _ => "bad-op"
   | "xread", [w] =>
     match bytesOfHex w with
     | some w =>
